@@ -8,6 +8,9 @@
 (*                                        with raise_first_exception = rf             *)
 (*   [t |-> "res",   r]                   obtain resource handle r                    *)
 (*   [t |-> "raise", when]                raise a memoizable exception if a = when     *)
+(*   [t |-> "bad",   when]                if a = when the body RETURNS a value that cannot be  *)
+(*                                        stored (a set): the call fails after the body ran,    *)
+(*                                        nothing is memoized for it (outcome "U", <<"U">>)      *)
 (* Well-foundedness: a step with d = 0 targets a function with a larger id.           *)
 (* A call is identified by the key <<f, a, c>> (c: context id, "none" if absent).     *)
 (*                                                                                    *)
@@ -31,6 +34,8 @@ Den(P, f, a, c) ==
         ELSE LET s == body[i] IN
           CASE s.t = "raise" ->
                  Go(i + 1, IF a = s.when THEN [acc EXCEPT !.ab = <<"E", f, a>>] ELSE acc)
+            [] s.t = "bad" ->
+                 Go(i + 1, IF a = s.when THEN [acc EXCEPT !.ab = <<"U">>, !.u = TRUE] ELSE acc)
             [] s.t = "res" ->
                  Go(i + 1, [acc EXCEPT !.res = Append(@, s.r)])
             [] s.t = "call" ->
@@ -49,7 +54,7 @@ Den(P, f, a, c) ==
                      subs == [j \in 1..Len(args) |-> Den(P, s.g, args[j], c2)]
                      a1   == [acc EXCEPT !.invs = @ \o [j \in 1..Len(args) |-> <<s.g, args[j], c2>>],
                                          !.deps = @ \cup UNION {subs[j].deps : j \in 1..Len(args)}]
-                     errs == {j \in 1..Len(args) : subs[j].out = "E"}
+                     errs == {j \in 1..Len(args) : subs[j].out # "V"}
                      vals == [j \in 1..Len(args) |-> subs[j].val]
                  IN Go(i + 1,
                        IF s.rf /\ errs # {}
@@ -57,8 +62,8 @@ Den(P, f, a, c) ==
                             IF s.catch THEN [a1 EXCEPT !.subs = Append(@, first)]
                             ELSE [a1 EXCEPT !.ab = first]
                        ELSE [a1 EXCEPT !.subs = Append(@, <<"L", vals>>)])
-      r == Go(1, [invs |-> <<>>, res |-> <<>>, deps |-> {f}, subs |-> <<>>, ab |-> <<>>])
-  IN [out  |-> IF r.ab = <<>> THEN "V" ELSE "E",
+      r == Go(1, [invs |-> <<>>, res |-> <<>>, deps |-> {f}, subs |-> <<>>, ab |-> <<>>, u |-> FALSE])
+  IN [out  |-> IF r.ab = <<>> THEN "V" ELSE IF r.u THEN "U" ELSE "E",
       val  |-> IF r.ab = <<>> THEN <<"V", f, a, r.subs>> ELSE r.ab,
       invs |-> r.invs, res |-> r.res, deps |-> r.deps]
 
@@ -72,13 +77,13 @@ Run(P, memo, f, a, c) ==
       Go(i, acc) ==      \* acc = [memo, ran, ab]
         IF i > Len(body) \/ acc.ab THEN acc
         ELSE LET s == body[i] IN
-          CASE s.t = "raise" -> Go(i + 1, IF a = s.when THEN [acc EXCEPT !.ab = TRUE] ELSE acc)
+          CASE s.t \in {"raise", "bad"} -> Go(i + 1, IF a = s.when THEN [acc EXCEPT !.ab = TRUE] ELSE acc)
             [] s.t = "res" -> Go(i + 1, acc)
             [] s.t = "call" ->
                  IF a < s.d THEN Go(i + 1, acc)
                  ELSE LET c2  == CtxAfter(c, s.ctx)
                           r   == Run(P, acc.memo, s.g, a - s.d, c2)
-                          bad == Den(P, s.g, a - s.d, c2).out = "E" /\ ~s.catch
+                          bad == Den(P, s.g, a - s.d, c2).out # "V" /\ ~s.catch
                       IN Go(i + 1, [memo |-> r.memo, ran |-> acc.ran \o r.ran, ab |-> bad])
             [] s.t = "batch" ->
                  LET c2   == CtxAfter(c, s.ctx)
@@ -88,10 +93,11 @@ Run(P, memo, f, a, c) ==
                                     ELSE LET r == Run(P, st.memo, s.g, args[j], c2) IN
                                          Each(j + 1, [memo |-> r.memo, ran |-> st.ran \o r.ran])
                      st2  == Each(1, [memo |-> acc.memo, ran |-> acc.ran])
-                     bad  == s.rf /\ ~s.catch /\ \E j \in 1..Len(args) : Den(P, s.g, args[j], c2).out = "E"
+                     bad  == s.rf /\ ~s.catch /\ \E j \in 1..Len(args) : Den(P, s.g, args[j], c2).out # "V"
                  IN Go(i + 1, [memo |-> st2.memo, ran |-> st2.ran, ab |-> bad])
       r == Go(1, [memo |-> memo, ran |-> <<<<f, a>>>>, ab |-> FALSE])
-  IN [memo |-> r.memo \cup {<<f, a, c>>}, ran |-> r.ran]
+  \* a call whose body returned something that cannot be stored is not memoized: it runs again next time
+  IN [memo |-> IF Den(P, f, a, c).out = "U" THEN r.memo ELSE r.memo \cup {<<f, a, c>>}, ran |-> r.ran]
 
 (* bodies that run when NOTHING is ever memoized (null storage): every call executes      *)
 RECURSIVE RunNS(_, _, _, _)
@@ -101,20 +107,20 @@ RunNS(P, f, a, c) ==
       Go(i, acc) ==
         IF i > Len(body) \/ acc.ab THEN acc
         ELSE LET s == body[i] IN
-          CASE s.t = "raise" -> Go(i + 1, IF a = s.when THEN [acc EXCEPT !.ab = TRUE] ELSE acc)
+          CASE s.t \in {"raise", "bad"} -> Go(i + 1, IF a = s.when THEN [acc EXCEPT !.ab = TRUE] ELSE acc)
             [] s.t = "res" -> Go(i + 1, acc)
             [] s.t = "call" ->
                  IF a < s.d THEN Go(i + 1, acc)
                  ELSE LET c2 == CtxAfter(c, s.ctx) IN
                       Go(i + 1, [ran |-> acc.ran \o RunNS(P, s.g, a - s.d, c2),
-                                 ab |-> Den(P, s.g, a - s.d, c2).out = "E" /\ ~s.catch])
+                                 ab |-> Den(P, s.g, a - s.d, c2).out # "V" /\ ~s.catch])
             [] s.t = "batch" ->
                  LET c2   == CtxAfter(c, s.ctx)
                      args == SelectSeq([j \in 1..Len(s.ds) |-> IF a >= s.ds[j] THEN a - s.ds[j] ELSE 99], LAMBDA x : x # 99)
                      RECURSIVE Each(_)
                      Each(j) == IF j > Len(args) THEN <<>> ELSE RunNS(P, s.g, args[j], c2) \o Each(j + 1)
                  IN Go(i + 1, [ran |-> acc.ran \o Each(1),
-                               ab |-> s.rf /\ ~s.catch /\ \E j \in 1..Len(args) : Den(P, s.g, args[j], c2).out = "E"])
+                               ab |-> s.rf /\ ~s.catch /\ \E j \in 1..Len(args) : Den(P, s.g, args[j], c2).out # "V"])
   IN Go(1, [ran |-> <<<<f, a>>>>, ab |-> FALSE]).ran
 
 (* the same call made with further calls prevented: the first nested memento call      *)
@@ -128,6 +134,7 @@ DenPrevent(P, f, a) ==
         IF i > Len(body) THEN <<"V", f, a, subs>>
         ELSE LET s == body[i] IN
           CASE s.t = "raise" -> IF a = s.when THEN <<"E", f, a>> ELSE Go(i + 1, subs)
+            [] s.t = "bad"   -> IF a = s.when THEN <<"U">> ELSE Go(i + 1, subs)
             [] s.t = "res"   -> Go(i + 1, subs)
             [] s.t = "call"  -> IF a < s.d THEN Go(i + 1, subs) ELSE <<"X", "RuntimeError">>
             [] s.t = "batch" -> <<"X", "RuntimeError">>
